@@ -1033,7 +1033,10 @@ def _defined_names(current, include_setitem):
     elif current.type in ('power', 'atom_expr'):
         if current.children[-2] != '**':  # Just if there's no operation
             trailer = current.children[-1]
-            if trailer.children[0] == '.':
+            if trailer.type != 'trailer':
+                # E.g. `await x`, which is an atom_expr without a trailer.
+                pass
+            elif trailer.children[0] == '.':
                 names.append(trailer.children[1])
             elif trailer.children[0] == '[' and include_setitem:
                 for node in current.children[-2::-1]:
